@@ -722,6 +722,7 @@ CONTRACTS.append(FindExpression())
 Raw = z3.DeclareSort("Raw")
 RDICT = z3.Function("RDICT", Raw, z3.BoolSort())
 RLIST = z3.Function("RLIST", Raw, z3.BoolSort())
+REMPTYMAP = z3.Function("REMPTYMAP", Raw, z3.BoolSort())      # the value is the empty mapping {}
 RHAS = z3.Function("RHAS", Raw, z3.StringSort(), z3.BoolSort())
 RGET = z3.Function("RGET", Raw, z3.StringSort(), Raw)
 TOHASH = z3.Function("TOHASH", Raw, J)          # _to_hashable(list)
@@ -751,6 +752,13 @@ class SRaw(Sym):
         if isinstance(k, str):
             return SBool(z3.And(RDICT(self.e), RHAS(self.e, z3.StringVal(k))))
         raise Unsupported("`in` document with a non-string")
+
+    def sym_eq(self, ex, other):
+        if isinstance(other, dict) and not other:
+            # v == {}: true of the empty mapping only (a mapping all the same: RDICT)
+            ex.assume(z3.Implies(REMPTYMAP(self.e), RDICT(self.e)))
+            return SBool(REMPTYMAP(self.e))
+        raise Unsupported(f"== on SRaw vs {type(other).__name__}")
 
     def sym_type(self, ex):
         return STypeOfRaw(self.e)
